@@ -6,6 +6,12 @@
                after EVERY op both print return value, root, node count and the left/right/parent/factor
                record of every node whose record changed (delta of the full heap; equivalent to comparing
                the full heap after every op since both start from the empty tree)
+  tie 2      : translator tools/c2avl.py (wired by tools/vavl.py): the rebalancing primitives of avl.c (a_avl_new_child, a_avl_child,
+               a_avl_set_child, a_avl_set_parent_factor, a_avl_set_parent, a_avl_factor, a_avl_set_factor, a_avl_rotate,
+               a_avl_rotate2, a_avl_handle_growth, a_avl_insert_adjust with its loop) and a_avl_parent of avl.h regenerated as
+               checked heap programs from the current sources in both node layouts and proved (harness/C01/TieAvl.v +
+               coq/C01/AvlTieLemmas.v) to implement AvlDefs.child / set_child / add_factor / rotate / rotate2 / handle_growth /
+               the retrace of ins on every heap that lays the tree out
   oracle     : the property itself evaluated on the C output (BST by in-order walk, recomputed heights vs
                stored factors, |factor|<=1, parent back-links, reachability, element map vs a Python dict,
                return values, "duplicate insert / search / absent remove change nothing"); a sanitizer
@@ -21,9 +27,10 @@ from concurrent.futures import ThreadPoolExecutor
 from pathlib import Path
 
 try:
-    from tools import vlib
+    from tools import vlib, vavl
 except ImportError:                      # pragma: no cover
     import vlib
+    import vavl
 
 HARN = vlib.VERIF / "harness" / "C01"
 CORPUS = vlib.VERIF / "corpus" / "C01"
@@ -530,6 +537,9 @@ def run(ctx):
             ctx.tie_broken("coqchk on LibaV.Properties_C01 failed or reports axioms: " + " ".join(o.split())[-400:])
         else:
             ctx.cov["trusted_base"].append("coqchk -o LibaV.Properties_C01: re-checked by the standalone kernel, Axioms: <none>")
+    if proved:
+        # pointer level: the rebalancing primitives regenerated from the current avl.c / avl.h (both layouts) and proved to refine AvlDefs
+        vavl.avl_translate_and_tie(ctx)
     cbin, mbin = build(ctx)
     configs = [(PACKED, cbin)]
     try:
@@ -752,16 +762,36 @@ META = {
             "order-only theorem shows only relative order matters): no model error reachable, BST, stored factor = "
             "h(right)-h(left) in -1..1 at every node, exact refinement of an abstract key->node map (duplicate insert returns "
             "the resident and leaves the tree equal, absent insert adds exactly it, remove deletes exactly it, search finds "
-            "iff present), canonical heap has consistent parent links, logarithmic height. Tie: extracted model vs the real "
+            "iff present), canonical heap has consistent parent links, logarithmic height. Tie 1: extracted model vs the real "
             "a_avl_insert/remove/search: left/right/parent/factor/root/return value compared after EVERY operation under "
             "ASan+UBSan in BOTH node layouts of avl.h/avl.c (packed parent_ word, A_SIZE_POINTER 8, and the unpacked "
             "#else arms with separate parent/factor fields, A_SIZE_POINTER 1), exhaustive small histories + directed shapes "
-            "+ random; all 38 rebalancing case tags hit.",
-    "note": "Trusted: Coq kernel; extraction (ExtrOcamlBasic only) + OCaml/C drivers; the recursive flag-upward model stands "
-            "for the C's bottom-up loop and the pointer surgery is not modelled statement by statement - both are transferred "
-            "to the C by the exact per-operation heap comparison (checked on the generated histories, not proved); both node "
-            "layouts are built and compared with the same model output (the model has no layout): packed on every batch, "
-            "unpacked on corpus + exhaustive small histories + every other remaining batch in quick and on every batch in "
-            "thorough. No axioms.",
-    "technique": "Rocq proof (structural induction, invariants, refinement to an abstract map) + extracted-model vs C exact heap correspondence",
+            "+ random; all 38 rebalancing case tags hit. Tie 2 (pointer level, re-proved on every run): tools/c2avl.py "
+            "regenerates from the current avl.c/avl.h, in both layouts, the pointer surgery of insertion as checked heap "
+            "programs (cells left/right/parent/factor + root slot; null/dangling access and a factor leaving -1..1 are "
+            "errors; loops on a fuel argument): a_avl_parent, a_avl_new_child, a_avl_child, a_avl_set_child, "
+            "a_avl_set_parent_factor, a_avl_set_parent, a_avl_factor, a_avl_set_factor, a_avl_rotate, a_avl_rotate2, "
+            "a_avl_handle_growth, a_avl_insert_adjust; 12 tie theorems x 2 layouts (harness/C01/TieAvl.v): the helpers are "
+            "the field operations of AvlDefs.child/set_child/add_factor for every state and argument; for EVERY heap in which "
+            "a tree with distinct node ids is laid out below the root slot or a child field of a parent cell, and both signs, "
+            "the generated a_avl_rotate / a_avl_rotate2 (all three factor cases) / a_avl_handle_growth succeed, leave "
+            "AvlDefs.rotate / rotate2 / handle_growth of that tree laid out below the same slot (same return value) and change "
+            "no cell outside the tree's nodes except the slot; and for EVERY heap that lays out a balanced search tree t with "
+            "the new leaf linked at its search position, the generated a_avl_insert_adjust (first level, then the bottom-up "
+            "loop, fuel >= height t) returns a heap that lays out exactly the tree the model's recursive insertion returns, "
+            "root->node = its root, no other cell touched.",
+    "note": "Trusted: Coq kernel; extraction (ExtrOcamlBasic only) + OCaml/C drivers; translator c2avl (its reading of the C: "
+            "clang AST -> heap program; the packed word parent_ = parent | (factor + 1) is mapped to the two components by "
+            "recognising its five uses in the AST, each mapping an arithmetic lemma pw_* of C01/AvlTieLemmas.v for 64-bit words "
+            "and 4-aligned pointers; int arithmetic taken exact - the theorems are for sign +-1 and factors in -1..1; fuel is a "
+            "proof device). Correspondence-only (tie 1, checked on the generated histories, not proved): a_avl_insert's "
+            "descent with the comparator callback and the linking of the leaf (a_avl_init, *link = node) - the insert_adjust "
+            "theorem starts from the linked heap -, a_avl_search, and the whole removal side (a_avl_handle_shrink, "
+            "a_avl_handle_remove, a_avl_remove and its retrace loop): their pointer surgery is not translated, and the "
+            "recursive flag-upward model of removal stands for the C's bottom-up loop by the exact per-operation heap "
+            "comparison only. Both node layouts are built and compared with the same model output (the model has no layout): "
+            "packed on every batch, unpacked on corpus + exhaustive small histories + every other remaining batch in quick and "
+            "on every batch in thorough. No axioms.",
+    "technique": "Rocq proof (structural induction, invariants, refinement to an abstract map) + extracted-model vs C exact heap correspondence "
+                 "+ translator tie (regenerated pointer code refines the tree model, representation predicate with frame)",
 }
